@@ -271,4 +271,25 @@ PROPS = {
         "assumptions": ["one stimulus per quiescence barrier"],
         "partial": ["resumed deliveries (transfer.resume) and delivery state carried on transfers are not modelled"],
     },
+    "C13": {
+        "class_prefixes": ["c13-", "harness-crash"],
+        "subs": [
+            {"name": "lifem", "n_quick": 400, "n_thorough": 20000, "model": "coq/Session/SessLife.v",
+             "rule": "session-only scripts over begin / peer begin / end / end_with_error / drop / cancelled end / peer end with and without error "
+                     "(protocol-abiding peer): every legal script of length <= 5 (thorough <= 7) after begin, plus random ones of length 3..12"},
+            {"name": "life", "n_quick": 2500, "n_thorough": 60000, "oracle": False,
+             "rule": "session + one sender link: begin, attach, send, detach, close, drop and cancellation of each call, end, end_with_error against a "
+                     "protocol-abiding scripted peer (begin, attach, flow, disposition, detach closed/not closed/with error, end with/without error); "
+                     "the generator tracks which handle is free so that few events are no-ops; direct oracle only (no model for links)"},
+        ],
+        "rule": "lifem: a case is one script run against the real session engine (client, scripted peer, paused clock, one event per barrier) and through the "
+                "extracted Coq step function; compared per step: begin/end frames (with error or not), results of begin()/end()/on_end(); life: the trace "
+                "(all frames as tokens, all API results) is checked by the direct oracle: one begin, at most one end, nothing after the end; at most one detach "
+                "per attach and nothing for the handle afterwards; a peer end answered; a peer detach answered in kind; the peer's error reported; the "
+                "connection never torn down; non-trivial = attach succeeded and a detach/close/end completed",
+        "trusted": ["model scope: see the header of coq/Session/SessLife.v (session lifecycle only)", "scripted peer and barrier as for C12"],
+        "assumptions": ["the peer stays within the protocol (violations are C15)", "one stimulus per quiescence barrier"],
+        "partial": ["the LINK clauses (attach/detach handshakes, answer in kind, flushing) are not modelled in Coq: they are decided on the implementation by the "
+                    "direct oracle over generated scripts only; three known findings concern them"],
+    },
 }
